@@ -228,10 +228,30 @@ for _n in _UFUNC_METHODS:
     _TABLE[_n] = (getattr(np, _n), safe_ufunc(_n))
 
 
+def safe_np_isclose(a, b, rtol=1e-05, atol=1e-08, equal_nan=False):
+    """numpy.isclose by its definition over the reals, |a-b| <= atol + rtol*|b|, element-wise (each comparison forks)"""
+    if not (_has_sym(a) or _has_sym(b)):
+        return np.isclose(np.asarray(a, dtype=float) if isinstance(a, np.ndarray) and a.dtype == object else a,
+                          np.asarray(b, dtype=float) if isinstance(b, np.ndarray) and b.dtype == object else b,
+                          rtol=rtol, atol=atol, equal_nan=equal_nan)
+    aa, bb = np.broadcast_arrays(np.asarray(a, dtype=object), np.asarray(b, dtype=object))
+    out = np.empty(aa.shape, dtype=bool)
+    for idx in np.ndindex(aa.shape):
+        x, y = aa[idx], bb[idx]
+        if is_symbolic(x) or is_symbolic(y):
+            out[idx] = bool(abs(SR.lift(x) - SR.lift(y)) <= atol + rtol * abs(SR.lift(y)))
+        else:
+            out[idx] = bool(np.isclose(float(x), float(y), rtol=rtol, atol=atol))
+    return out if aa.shape else bool(out)
+
+
+_TABLE_NP2 = {'isclose': (np.isclose, safe_np_isclose)}
+
+
 def patch(*modules):
     import math as _m
     for m in modules:
-        for name, (orig, repl) in _TABLE.items():
+        for name, (orig, repl) in list(_TABLE.items()) + list(_TABLE_NP2.items()):
             cur = m.__dict__.get(name)
             if cur is orig:
                 m.__dict__[name] = repl
